@@ -24,6 +24,10 @@ def main():
     from gtmon import hooks
 
     mod = importlib.import_module(f"gtmon.props.{a.prop.lower()}")
+    from gtmon import gen
+    hostile = getattr(mod, "HOSTILE", ())
+    gen.HOSTILE_SCALE = "scale" in hostile
+    gen.HOSTILE_MEAN = "mean" in hostile
     rec = core.Rec(a.prop)
     rec.classifier = getattr(mod, "classify", None)
     hooks.install(monitors=getattr(mod, "MONITORS", ("WF",)), rec=rec)
